@@ -1,5 +1,6 @@
 import SST.Model.PQ
 import SST.Spec.Sorted
+import SST.Proofs.PQBasic
 namespace SST.Proofs
 open SST PQ
 
@@ -9,19 +10,377 @@ variable {K V : Type}
 def tagged (inputs : List (List (K × V))) : List (K × V × Nat) :=
   ((List.range inputs.length).zip inputs).flatMap fun (i, l) => l.map fun (k, v) => (k, v, i)
 
+namespace PQB
+
+/-! ### what is still to come -/
+
+/-- the tagged items one heap element stands for: its current item and the rest of its input -/
+def items (e : PElem K V) : List (K × V × Nat) :=
+  (e.key, e.val, e.ctx) :: e.rest.map fun (k, v) => (k, v, e.ctx)
+
+def pending (h : Heap K V) : List (K × V × Nat) := h.flatMap items
+
+/-- current item followed by the remaining ones is non-descending -/
+def ElemOK (cmp : K → K → Ordering) (e : PElem K V) : Prop := NonDesc cmp ((e.key, e.val) :: e.rest)
+
+def AllOK (cmp : K → K → Ordering) (h : Heap K V) : Prop := ∀ e ∈ h, ElemOK cmp e
+
+theorem pending_cons (e : PElem K V) (h : Heap K V) : pending (e :: h) = items e ++ pending h := by
+  simp [pending]
+
+theorem pending_perm {h h' : Heap K V} (p : h.Perm h') : (pending h).Perm (pending h') :=
+  p.flatMap_right _
+
+theorem allOK_perm {cmp : K → K → Ordering} {h h' : Heap K V} (p : h.Perm h') (ok : AllOK cmp h) :
+    AllOK cmp h' := fun e he => ok e (p.mem_iff.mpr he)
+
+theorem items_ctx (e : PElem K V) : ∀ x ∈ items e, x.2.2 = e.ctx := by
+  intro x hx
+  simp only [items, List.mem_cons, List.mem_map] at hx
+  rcases hx with rfl | ⟨y, _, rfl⟩ <;> rfl
+
+/-- everything still pending is ≥ the root -/
+theorem pending_lb {cmp : K → K → Ordering} (hl : LawfulCmp cmp) {top : PElem K V} {tl : Heap K V}
+    (ho : HeapOrd cmp (top :: tl)) (ok : AllOK cmp (top :: tl)) :
+    ∀ x ∈ pending (top :: tl), cmp top.key x.1 ≠ .gt := by
+  intro x hx
+  simp only [pending, List.mem_flatMap] at hx
+  obtain ⟨e, he, hxe⟩ := hx
+  have hte : cmp top.key e.key ≠ .gt := root_min_mem hl ho e he
+  simp only [items, List.mem_cons, List.mem_map] at hxe
+  rcases hxe with rfl | ⟨y, hy, rfl⟩
+  · exact hte
+  · have hok := ok e he
+    simp only [ElemOK, NonDesc, List.pairwise_cons] at hok
+    exact cmp_le_trans hl hte (hok.1 y hy)
+
+/-- one `next`, in terms of a canonical successor heap `h''` -/
+theorem next_step {cmp : K → K → Ordering} (hl : LawfulCmp cmp) {h h' : Heap K V} {out : K × V × Nat}
+    (ho : HeapOrd cmp h) (hn : next cmp h = some (out, h')) :
+    ∃ top tl h'', h = top :: tl ∧ out.1 = top.key ∧ HeapOrd cmp h' ∧ h'.Perm h'' ∧
+      pending h = out :: pending h'' ∧ (AllOK cmp h → AllOK cmp h'') ∧
+      ((h.map (·.ctx)).Nodup → (h''.map (·.ctx)).Nodup) := by
+  obtain ⟨top, tl, rfl, rfl, ho', hcase⟩ := next_spec hl ho hn
+  rcases hcase with ⟨k', v', rest', hrest, hp⟩ | ⟨hrest, hp⟩
+  · refine ⟨top, tl, _, rfl, rfl, ho', hp, ?_, ?_, ?_⟩
+    · simp [pending_cons, items, hrest]
+    · intro ok e he
+      rcases List.mem_cons.mp he with rfl | he
+      · have := ok top (List.mem_cons_self)
+        simp only [ElemOK, NonDesc, hrest] at this ⊢
+        exact (List.pairwise_cons.mp this).2
+      · exact ok e (List.mem_cons_of_mem _ he)
+    · intro nd; simpa using nd
+  · refine ⟨top, tl, tl, rfl, rfl, ho', hp, ?_, ?_, ?_⟩
+    · simp [pending_cons, items, hrest]
+    · intro ok e he; exact ok e (List.mem_cons_of_mem _ he)
+    · intro nd
+      simp only [List.map_cons, List.nodup_cons] at nd
+      exact nd.2
+
+/-! ### draining -/
+
+theorem drainAux_spec {cmp : K → K → Ordering} (hl : LawfulCmp cmp) :
+    ∀ (fuel : Nat) (h : Heap K V), HeapOrd cmp h → AllOK cmp h → (pending h).length < fuel →
+      (drainAux cmp fuel h).Pairwise (fun a b => cmp a.1 b.1 ≠ .gt) ∧
+        (drainAux cmp fuel h).Perm (pending h) := by
+  intro fuel
+  induction fuel with
+  | zero => intro h _ _ hf; omega
+  | succ n ih =>
+    intro h ho ok hf
+    unfold drainAux
+    cases hn : next cmp h with
+    | none =>
+      have := next_none hn
+      subst this
+      simp [pending]
+    | some r =>
+      obtain ⟨out, h'⟩ := r
+      simp only []
+      obtain ⟨top, tl, h'', rfl, hout, ho', hp, hpend, hok, _⟩ := next_step hl ho hn
+      have hpp : (pending h').Perm (pending h'') := pending_perm hp
+      have ok' : AllOK cmp h' := allOK_perm hp.symm (hok ok)
+      have hlen : (pending h').length < n := by
+        rw [hpp.length_eq]; rw [hpend] at hf; simp at hf; omega
+      obtain ⟨ihs, ihp⟩ := ih h' ho' ok' hlen
+      constructor
+      · rw [List.pairwise_cons]
+        refine ⟨?_, ihs⟩
+        intro x hx
+        have hx2 : x ∈ pending (top :: tl) := by
+          rw [hpend]
+          exact List.mem_cons_of_mem _ (hpp.mem_iff.mp (ihp.mem_iff.mp hx))
+        rw [hout]
+        exact pending_lb hl ho ok x hx2
+      · rw [hpend]
+        exact (List.perm_cons out).mpr (ihp.trans hpp)
+
+/-! ### per-input order -/
+
+theorem filter_pending (i : Nat) (h : Heap K V) :
+    (pending h).filter (fun o => o.2.2 == i) =
+      (h.filter (fun e => e.ctx == i)).flatMap items := by
+  induction h with
+  | nil => simp [pending]
+  | cons e h ih =>
+    rw [pending_cons, List.filter_append, ih, List.filter_cons]
+    by_cases hc : e.ctx = i
+    · have : (items e).filter (fun o => o.2.2 == i) = items e := by
+        rw [List.filter_eq_self]
+        intro x hx; simp [items_ctx e x hx, hc]
+      simp [hc, this]
+    · have : (items e).filter (fun o => o.2.2 == i) = [] := by
+        rw [List.filter_eq_nil_iff]
+        intro x hx; simp [items_ctx e x hx, hc]
+      simp [hc, this]
+
+theorem filter_ctx_length (i : Nat) (h : Heap K V) (nd : (h.map (·.ctx)).Nodup) :
+    (h.filter (fun e => e.ctx == i)).length ≤ 1 := by
+  induction h with
+  | nil => simp
+  | cons e h ih =>
+    simp only [List.map_cons, List.nodup_cons] at nd
+    rw [List.filter_cons]
+    by_cases hc : e.ctx = i
+    · have : h.filter (fun e => e.ctx == i) = [] := by
+        rw [List.filter_eq_nil_iff]
+        intro a ha hai
+        simp at hai
+        apply nd.1
+        rw [hc, ← hai]
+        exact List.mem_map_of_mem ha
+      simp [hc, this]
+    · simp [hc]; exact ih nd.2
+
+theorem perm_eq_of_length_le_one {α : Type} {l l' : List α} (p : l.Perm l') (hlen : l.length ≤ 1) :
+    l = l' := by
+  match l, hlen with
+  | [], _ => exact (List.nil_perm.mp p).symm
+  | [a], _ => exact List.singleton_perm.mp p
+
+theorem filter_pending_perm (i : Nat) {h h' : Heap K V} (p : h.Perm h') (nd : (h.map (·.ctx)).Nodup) :
+    (pending h).filter (fun o => o.2.2 == i) = (pending h').filter (fun o => o.2.2 == i) := by
+  rw [filter_pending, filter_pending]
+  rw [perm_eq_of_length_le_one (p.filter _) (filter_ctx_length i h nd)]
+
+theorem drainAux_filter {cmp : K → K → Ordering} (hl : LawfulCmp cmp) (i : Nat) :
+    ∀ (fuel : Nat) (h : Heap K V), HeapOrd cmp h → (h.map (·.ctx)).Nodup →
+      (pending h).length < fuel →
+      (drainAux cmp fuel h).filter (fun o => o.2.2 == i) =
+        (pending h).filter (fun o => o.2.2 == i) := by
+  intro fuel
+  induction fuel with
+  | zero => intro h _ _ hf; omega
+  | succ n ih =>
+    intro h ho nd hf
+    unfold drainAux
+    cases hn : next cmp h with
+    | none =>
+      have := next_none hn
+      subst this
+      simp [pending]
+    | some r =>
+      obtain ⟨out, h'⟩ := r
+      simp only []
+      obtain ⟨top, tl, h'', rfl, hout, ho', hp, hpend, _, hnd⟩ := next_step hl ho hn
+      have hpp : (pending h').Perm (pending h'') := pending_perm hp
+      have nd'' := hnd nd
+      have nd' : (h'.map (·.ctx)).Nodup := ((hp.map _).nodup_iff).mpr nd''
+      have hlen : (pending h').length < n := by
+        rw [hpp.length_eq]; rw [hpend] at hf; simp at hf; omega
+      rw [hpend, List.filter_cons, List.filter_cons, ih h' ho' nd' hlen,
+        filter_pending_perm i hp nd']
+
+/-! ### `init` -/
+
+/-- the heap elements `init` creates, in input order -/
+def raw : Nat → List (List (K × V)) → Heap K V
+  | _, [] => []
+  | n, [] :: ins => raw (n + 1) ins
+  | n, ((k, v) :: rest) :: ins => ⟨k, v, n, rest⟩ :: raw (n + 1) ins
+
+def taggedFrom (n : Nat) (ins : List (List (K × V))) : List (K × V × Nat) :=
+  ((List.range' n ins.length).zip ins).flatMap fun (i, l) => l.map fun (k, v) => (k, v, i)
+
+theorem tagged_eq (ins : List (List (K × V))) : tagged ins = taggedFrom 0 ins := by
+  simp [tagged, taggedFrom, List.range_eq_range']
+
+theorem taggedFrom_cons (n : Nat) (l : List (K × V)) (ins : List (List (K × V))) :
+    taggedFrom n (l :: ins) = (l.map fun (k, v) => (k, v, n)) ++ taggedFrom (n + 1) ins := by
+  simp [taggedFrom, List.range'_succ]
+
+theorem pending_raw (n : Nat) (ins : List (List (K × V))) : pending (raw n ins) = taggedFrom n ins := by
+  induction ins generalizing n with
+  | nil => simp [raw, pending, taggedFrom]
+  | cons l ins ih =>
+    cases l with
+    | nil => rw [raw, ih, taggedFrom_cons]; simp
+    | cons kv rest =>
+      obtain ⟨k, v⟩ := kv
+      rw [raw, pending_cons, ih, taggedFrom_cons]; simp [items]
+
+theorem raw_ctx (n : Nat) (ins : List (List (K × V))) : ∀ e ∈ raw n ins, n ≤ e.ctx := by
+  induction ins generalizing n with
+  | nil => simp [raw]
+  | cons l ins ih =>
+    cases l with
+    | nil => intro e he; rw [raw] at he; have := ih (n + 1) e he; omega
+    | cons kv rest =>
+      obtain ⟨k, v⟩ := kv
+      intro e he
+      rw [raw] at he
+      rcases List.mem_cons.mp he with rfl | he
+      · simp
+      · have := ih (n + 1) e he; omega
+
+theorem raw_nodup (n : Nat) (ins : List (List (K × V))) : ((raw n ins).map (·.ctx)).Nodup := by
+  induction ins generalizing n with
+  | nil => simp [raw]
+  | cons l ins ih =>
+    cases l with
+    | nil => rw [raw]; exact ih _
+    | cons kv rest =>
+      obtain ⟨k, v⟩ := kv
+      rw [raw, List.map_cons, List.nodup_cons]
+      refine ⟨?_, ih _⟩
+      intro hm
+      obtain ⟨e, he, hce⟩ := List.mem_map.mp hm
+      have := raw_ctx (n + 1) ins e he
+      simp at hce; omega
+
+theorem raw_ok {cmp : K → K → Ordering} (n : Nat) (ins : List (List (K × V)))
+    (hs : ∀ l ∈ ins, NonDesc cmp l) : AllOK cmp (raw n ins) := by
+  induction ins generalizing n with
+  | nil => intro e he; simp [raw] at he
+  | cons l ins ih =>
+    have hs' : ∀ l ∈ ins, NonDesc cmp l := fun l hl => hs l (List.mem_cons_of_mem _ hl)
+    cases l with
+    | nil => rw [raw]; exact ih _ hs'
+    | cons kv rest =>
+      obtain ⟨k, v⟩ := kv
+      rw [raw]
+      intro e he
+      rcases List.mem_cons.mp he with rfl | he
+      · exact hs _ List.mem_cons_self
+      · exact ih _ hs' e he
+
+theorem initAux_spec {cmp : K → K → Ordering} (hl : LawfulCmp cmp) (ins : List (List (K × V))) :
+    ∀ (h : Heap K V) (n : Nat), HeapOrd cmp h →
+      HeapOrd cmp (initAux cmp h n ins) ∧ (initAux cmp h n ins).Perm (h ++ raw n ins) := by
+  induction ins with
+  | nil => intro h n ho; simp [initAux, raw, ho]
+  | cons l ins ih =>
+    intro h n ho
+    cases l with
+    | nil => rw [initAux, raw]; exact ih h (n + 1) ho
+    | cons kv rest =>
+      obtain ⟨k, v⟩ := kv
+      rw [initAux, raw]
+      obtain ⟨ho1, hp1⟩ := upHeap_append hl h ⟨k, v, n, rest⟩ ho
+      obtain ⟨ho2, hp2⟩ := ih _ (n + 1) ho1
+      refine ⟨ho2, hp2.trans ?_⟩
+      have : h ++ (⟨k, v, n, rest⟩ :: raw (n + 1) ins) = (h ++ [⟨k, v, n, rest⟩]) ++ raw (n + 1) ins := by
+        simp
+      rw [this]
+      exact hp1.append_right _
+
+theorem init_spec {cmp : K → K → Ordering} (hl : LawfulCmp cmp) (ins : List (List (K × V))) :
+    HeapOrd cmp (init cmp ins) ∧ (init cmp ins).Perm (raw 0 ins) := by
+  have := initAux_spec hl ins [] 0 (heapOrd_nil cmp)
+  simpa [init] using this
+
+theorem taggedFrom_length (n : Nat) (ins : List (List (K × V))) :
+    (taggedFrom n ins).length = total ins := by
+  induction ins generalizing n with
+  | nil => simp [taggedFrom, total]
+  | cons l ins ih =>
+    rw [taggedFrom_cons, List.length_append, ih]
+    simp [total]
+
+theorem taggedFrom_ctx (n : Nat) (ins : List (List (K × V))) : ∀ x ∈ taggedFrom n ins, n ≤ x.2.2 := by
+  induction ins generalizing n with
+  | nil => simp [taggedFrom]
+  | cons l ins ih =>
+    intro x hx
+    rw [taggedFrom_cons] at hx
+    rcases List.mem_append.mp hx with hx | hx
+    · obtain ⟨y, _, rfl⟩ := List.mem_map.mp hx
+      simp
+    · have := ih (n + 1) x hx; omega
+
+theorem taggedFrom_filter (i : Nat) (ins : List (List (K × V))) :
+    ∀ (n : Nat) (l : List (K × V)), n ≤ i → ins[i - n]? = some l →
+      ((taggedFrom n ins).filter (fun o => o.2.2 == i)).map (fun o => (o.1, o.2.1)) = l := by
+  induction ins with
+  | nil => intro n l _ h; simp at h
+  | cons l0 ins ih =>
+    intro n l hni hl
+    rw [taggedFrom_cons, List.filter_append, List.map_append]
+    by_cases hc : n = i
+    · subst hc
+      simp at hl
+      subst hl
+      have h1 : (taggedFrom (n + 1) ins).filter (fun o => o.2.2 == n) = [] := by
+        rw [List.filter_eq_nil_iff]
+        intro x hx
+        have := taggedFrom_ctx (n + 1) ins x hx
+        simp; omega
+      have h2 : (l0.map fun (k, v) => (k, v, n)).filter (fun o => o.2.2 == n) =
+          (l0.map fun (k, v) => (k, v, n)) := by
+        rw [List.filter_eq_self]
+        intro x hx
+        obtain ⟨y, _, rfl⟩ := List.mem_map.mp hx
+        simp
+      rw [h1, h2]
+      simp only [List.map_nil, List.append_nil, List.map_map]
+      conv => rhs; rw [← List.map_id l0]
+      apply List.map_congr_left
+      intro x _; rfl
+    · have h2 : (l0.map fun (k, v) => (k, v, n)).filter (fun o => o.2.2 == i) = [] := by
+        rw [List.filter_eq_nil_iff]
+        intro x hx
+        obtain ⟨y, _, rfl⟩ := List.mem_map.mp hx
+        simp [hc]
+      have h3 : i - n = (i - (n + 1)) + 1 := by omega
+      rw [h3, List.getElem?_cons_succ] at hl
+      rw [h2, ih (n + 1) l (by omega) hl]
+      simp
+
+end PQB
+
+open PQB
+
 /-- The queue over any number of non-descending inputs returns every item of every input exactly once
 (together with the number of its input), in non-descending key order. -/
 theorem pq_sorted_merge (cmp : K → K → Ordering) (hl : LawfulCmp cmp) (inputs : List (List (K × V)))
     (hs : ∀ l ∈ inputs, NonDesc cmp l) :
     (drain cmp inputs).Pairwise (fun a b => cmp a.1 b.1 ≠ .gt) ∧
     (drain cmp inputs).Perm (tagged inputs) := by
-  sorry
+  obtain ⟨ho, hp⟩ := init_spec hl inputs
+  have ok : AllOK cmp (init cmp inputs) := allOK_perm hp.symm (raw_ok 0 inputs hs)
+  have hpend : (pending (init cmp inputs)).Perm (tagged inputs) := by
+    rw [tagged_eq, ← pending_raw]; exact pending_perm hp
+  have hlen : (pending (init cmp inputs)).length < total inputs + 1 := by
+    rw [hpend.length_eq, tagged_eq, taggedFrom_length]; omega
+  obtain ⟨h1, h2⟩ := drainAux_spec hl (total inputs + 1) (init cmp inputs) ho ok hlen
+  exact ⟨h1, h2.trans hpend⟩
 
 /-- Items of one input keep their relative order (needed by the latest-wins reducers: equal keys of the
 same input cannot occur, and the per-input order is the iterator's). -/
 theorem pq_per_input_order (cmp : K → K → Ordering) (hl : LawfulCmp cmp) (inputs : List (List (K × V)))
     (hs : ∀ l ∈ inputs, NonDesc cmp l) (i : Nat) (hi : i < inputs.length) :
     ((drain cmp inputs).filter (fun o => o.2.2 == i)).map (fun o => (o.1, o.2.1)) = inputs[i] := by
-  sorry
+  have _ := hs
+  obtain ⟨ho, hp⟩ := init_spec hl inputs
+  have nd : ((init cmp inputs).map (·.ctx)).Nodup := ((hp.map _).nodup_iff).mpr (raw_nodup 0 inputs)
+  have hpend : (pending (init cmp inputs)).Perm (tagged inputs) := by
+    rw [tagged_eq, ← pending_raw]; exact pending_perm hp
+  have hlen : (pending (init cmp inputs)).length < total inputs + 1 := by
+    rw [hpend.length_eq, tagged_eq, taggedFrom_length]; omega
+  have h1 := drainAux_filter hl i (total inputs + 1) (init cmp inputs) ho nd hlen
+  unfold drain
+  rw [h1, filter_pending_perm i hp nd, pending_raw]
+  exact taggedFrom_filter i inputs 0 _ (Nat.zero_le _) (by simp [hi])
 
 end SST.Proofs
